@@ -8,6 +8,7 @@ import (
 	"runtime"
 	"sort"
 	"strings"
+	"time"
 
 	"golang.org/x/tools/go/ssa"
 )
@@ -75,6 +76,8 @@ type Exec struct {
 	cfg       map[string]string
 	freshN    int
 	lenient   bool
+	lightCache map[[2]interface{}]bool
+	slowN     int
 	replace   map[string]*ssa.Function
 	ufApps    map[string][][2]*Term
 }
@@ -82,7 +85,7 @@ type Exec struct {
 func NewExec(prog *ssa.Program) *Exec {
 	return &Exec{prog: prog, unroll: 8, nextObj: 1, globals: map[*ssa.Global]int{}, globalTy: map[int]types.Type{}, globalNm: map[int]string{},
 		pdomCache: map[*ssa.Function][]*ssa.BasicBlock{}, funcsSeen: map[string]bool{}, stubsUsed: map[string]bool{},
-		nondets: map[string]*Term{}, nondetTy: map[string]string{}, maxSteps: 3_000_000, cfg: map[string]string{}}
+		nondets: map[string]*Term{}, lightCache: map[[2]interface{}]bool{}, nondetTy: map[string]string{}, maxSteps: 3_000_000, cfg: map[string]string{}}
 }
 
 func (e *Exec) fresh(prefix string, s Sort) *Term {
@@ -140,11 +143,21 @@ func (e *Exec) feasible(st *State, c *Term) bool {
 		return false
 	}
 	e.feasQ++
-	as := append(append([]*Term(nil), st.PC...), c)
+	if e.feasQ%200 == 0 && os.Getenv("VERIF_PROGRESS") != "" {
+		fmt.Fprintf(os.Stderr, "  feasibility queries: %d, solver time %.1fs, forks %d merges %d terms %d\n", e.feasQ, e.solver.Time.Seconds(), e.forks, e.merges, len(termList))
+	}
+	as := sliceRelevant(st.PC, c)
 	if e.conc != nil {
 		as = append(as, e.conc.sideConstraints()...)
 	}
+	t0 := time.Now()
 	res, _ := e.solver.Check(as, 5000, false)
+	if d := time.Since(t0); d > 100*time.Millisecond && os.Getenv("VERIF_PROGRESS") != "" {
+		e.slowN++
+		if e.slowN <= 5 {
+			os.WriteFile(fmt.Sprintf("/tmp/probe/slow_%d.smt2", e.slowN), []byte(fmt.Sprintf("; %v %s\n", d, res)+Script(as, false, "")), 0o644)
+		}
+	}
 	return res != "unsat"
 }
 
@@ -344,8 +357,11 @@ func (e *Exec) run(st *State, blk *ssa.BasicBlock, idx int, stops []*ssa.BasicBl
 				blk, idx = succ, firstNonPhi(succ)
 				continue
 			}
-			tF := e.feasible(st, cond)
-			fF := e.feasible(st, Not(cond))
+			tF, fF := true, true
+			if !e.lightRegion(fr.Fn, blk) {
+				tF = e.feasible(st, cond)
+				fF = e.feasible(st, Not(cond))
+			}
 			if !tF && !fF {
 				return nil
 			}
@@ -755,4 +771,130 @@ func asUnsupported(r interface{}) (unsupported, bool) {
 		return unsupported{"engine: " + re.Error()}, true
 	}
 	return unsupported{}, false
+}
+
+// ---------- independence slicing of path conditions ----------
+
+var termVarsCache = map[int]map[int]bool{}
+
+func termVars(t *Term) map[int]bool {
+	if r, ok := termVarsCache[t.ID]; ok {
+		return r
+	}
+	r := map[int]bool{}
+	if t.Op == "var" || (t.Op == "uf") {
+		if t.Op == "var" {
+			r[t.ID] = true
+		} else {
+			// all applications of one UF are related through the function symbol
+			r[-int(hashStr(t.S))-1] = true
+		}
+	}
+	for _, a := range t.Args {
+		for k := range termVars(a) {
+			r[k] = true
+		}
+	}
+	termVarsCache[t.ID] = r
+	return r
+}
+
+func hashStr(s string) uint32 {
+	h := uint32(2166136261)
+	for i := 0; i < len(s); i++ {
+		h = (h ^ uint32(s[i])) * 16777619
+	}
+	return h & 0x3fffffff
+}
+
+// sliceRelevant returns c plus the conjuncts of pc that (transitively) share variables with c.
+func sliceRelevant(pc []*Term, c *Term) []*Term {
+	rel := map[int]bool{}
+	for k := range termVars(c) {
+		rel[k] = true
+	}
+	used := make([]bool, len(pc))
+	out := []*Term{c}
+	for changed := true; changed; {
+		changed = false
+		for i, p := range pc {
+			if used[i] {
+				continue
+			}
+			vs := termVars(p)
+			hit := len(vs) == 0 && false
+			for k := range vs {
+				if rel[k] {
+					hit = true
+					break
+				}
+			}
+			if hit {
+				used[i] = true
+				changed = true
+				out = append(out, p)
+				for k := range vs {
+					rel[k] = true
+				}
+			}
+		}
+	}
+	return out
+}
+
+// lightRegion reports whether the branch region between blk and its immediate post-dominator is
+// small, loop-free and free of calls/effects beyond loads and pure operators (typically a Go
+// && / || chain or a small if/else assigning values). Such regions are explored on both sides
+// without asking the solver for feasibility first: the sides are merged at the join anyway, and an
+// infeasible side can only contribute guarded values (or panic obligations that the solver refutes).
+func (e *Exec) lightRegion(fn *ssa.Function, blk *ssa.BasicBlock) bool {
+	key := [2]interface{}{fn, blk.Index}
+	if v, ok := e.lightCache[key]; ok {
+		return v
+	}
+	J := e.ipdoms(fn)[blk.Index]
+	res := false
+	if J != nil && !e.noMerge {
+		res = true
+		seen := map[int]bool{}
+		var stack []*ssa.BasicBlock
+		for _, s := range blk.Succs {
+			stack = append(stack, s)
+		}
+		for len(stack) > 0 && res {
+			b := stack[len(stack)-1]
+			stack = stack[:len(stack)-1]
+			if b == J || seen[b.Index] {
+				continue
+			}
+			if b == blk {
+				res = false
+				break
+			}
+			seen[b.Index] = true
+			if len(seen) > 10 {
+				res = false
+				break
+			}
+			for _, ins := range b.Instrs {
+				switch x := ins.(type) {
+				case *ssa.Phi, *ssa.BinOp, *ssa.UnOp, *ssa.Field, *ssa.FieldAddr, *ssa.IndexAddr, *ssa.Extract, *ssa.Convert, *ssa.ChangeType,
+					*ssa.MakeInterface, *ssa.ChangeInterface, *ssa.Jump, *ssa.If, *ssa.DebugRef, *ssa.Store, *ssa.Alloc, *ssa.Slice, *ssa.Index, *ssa.TypeAssert:
+					if u, ok := x.(*ssa.UnOp); ok && u.Op == token.ARROW {
+						res = false
+					}
+					if bo, ok := x.(*ssa.BinOp); ok && (bo.Op == token.QUO || bo.Op == token.REM) {
+						res = false
+					}
+				default:
+					res = false
+				}
+			}
+			for _, s := range b.Succs {
+				stack = append(stack, s)
+			}
+		}
+	}
+	e.lightCache[key] = res
+	return res
 }
